@@ -443,6 +443,36 @@ theorem Inv.step {s s' : State} (h : Inv s) {t : Nat} {a : Act} (hs : step s t a
       | idle => simp [hthr] at hs
       | sync f rest => simp only [hthr] at hs; exact stepFrame_inv h hup hthr hs
       | start pc l pass c => simp only [hthr] at hs; exact stepStart_inv h hup hthr hs
+  | raise =>
+    simp only at hs
+    cases hup : s.up (s.proc t) with
+    | false => simp [hup] at hs
+    | true =>
+      simp only [hup, if_true] at hs
+      cases hthr : s.thr t with
+      | idle => simp [hthr] at hs
+      | start pc l pass c => simp [hthr] at hs
+      | sync f rest =>
+        simp only [hthr] at hs
+        by_cases hpc : f.pc = .cs
+        · rw [if_pos hpc] at hs
+          have hg := h.good t
+          rw [hthr] at hg
+          have hg' : stackOK (s.proc t) (s.cur (s.proc t)) (f :: rest) := hg
+          -- marking the activation as raising changes nothing the invariant looks at
+          have h1 : Inv (setThr s t (.sync { f with exc := true } rest)) := by
+            refine h.upd t (.sync { f with exc := true } rest) rfl rfl rfl rfl hup ?_ ?_ rfl rfl rfl rfl ?_
+            · exact h.acc.pure t _ (by intro L; simp [hthr, TState.held, Frame.held])
+            · exact good_top hg ⟨hg'.1.1, hg'.1.2⟩ (by
+                intro hne
+                cases rest with
+                | nil => exact absurd rfl hne
+                | cons g r => exact hg'.2.1.1)
+            · intro _; simp [TState.inside, hpc, Pc.inCS]
+          have hthr1 : (setThr s t (.sync { f with exc := true } rest)).thr t
+              = .sync { f with exc := true } rest := by simp [setThr]
+          exact stepFrame_inv h1 hup hthr1 hs
+        · simp [hpc] at hs
   | wr =>
     simp only at hs
     cases hup : s.up (s.proc t) with
